@@ -400,6 +400,32 @@ func vfC12Reassembly(t *testing.T, res *vfResult) {
 		vfCurrent(0, "reasm", vfArrivalString(recs))
 		run(job{recs, totals})
 	}
+	// endurance: one buffer lives as long as its connection; thousands of fragments pass through it
+	for _, shape := range [][2]int{{80, 40}, {30, 120}, {400, 3}} {
+		r := vfRand("C12/endurance", shape[0])
+		totals := map[uint16]int{}
+		var recs [][]vfFrag
+		for m := 0; m < shape[0]; m++ {
+			seq := uint16(m)
+			parts := make([]int, shape[1])
+			for i := range parts {
+				parts[i] = 1 + (m+i)%7
+			}
+			n := 0
+			for _, x := range parts {
+				n += x
+			}
+			totals[seq] = n
+			frs := vfFragsOf(seq, parts)
+			r.Shuffle(len(frs), func(i, j int) { frs[i], frs[j] = frs[j], frs[i] })
+			for _, f := range frs {
+				recs = append(recs, []vfFrag{f})
+			}
+		}
+		vfCurrent(0, "reasm-endurance", fmt.Sprintf("%d messages x %d fragments", shape[0], shape[1]))
+		res.Count("endurance_fragments", int64(len(recs)))
+		run(job{recs, totals})
+	}
 	vfClearCurrent(0)
 }
 
